@@ -43,11 +43,26 @@ Dev_DbIdFromCount ==
   /\ (\A i \in DOMAIN E.dec.records : Intended(E.dec.records[i]) \/ UnknownOrWrongDb(E.dec.records[i])) = TRUE
   /\ used' = used \cup {"Dev_DbIdFromCount"}
 
+(* the same finding, other manifestation: a database whose metadata file is not on disk (a kill *)
+(* between the first data files and the metadata file of its first snapshot) is given the      *)
+(* number of databases loaded so far as identifier, which another database may already carry   *)
+NoMeta == {E.dec.nometa[i] : i \in DOMAIN E.dec.nometa}
+SharedOnlyWithoutMeta == \A a, b \in DOMAIN E.dec.dbids :
+                            (a # b /\ E.dec.dbids[a] = E.dec.dbids[b]) => (a \in NoMeta \/ b \in NoMeta)
+Dev_DbIdFromCount_Shared ==
+  /\ "Dev_DbIdFromCount" \in Devs
+  /\ E.ev = "check" /\ E.dec.start = "ok"
+  /\ IdsDistinct = FALSE
+  /\ SharedOnlyWithoutMeta = TRUE
+  /\ (E.dec.valid => \A i \in DOMAIN E.dec.records :
+                        Intended(E.dec.records[i]) \/ UnknownOrWrongDb(E.dec.records[i])) = TRUE
+  /\ used' = used \cup {"Dev_DbIdFromCount"}
+
 Other == E.ev \in {"cmd", "tick", "shutdown"} /\ UNCHANGED used
 
 TraceInit == l = 1 /\ used = {} /\ TLCSet(1, 0)
 Reset == E.ev = "reset" /\ used' = {} /\ ((used # {}) => PrintT(<<"USED", Rec[l-1].run, used>>))
-TraceNext == l <= Len(Rec) /\ l' = l + 1 /\ (Reset \/ CheckOK \/ Other \/ Dev_DbIdFromCount)
+TraceNext == l <= Len(Rec) /\ l' = l + 1 /\ (Reset \/ CheckOK \/ Other \/ Dev_DbIdFromCount \/ Dev_DbIdFromCount_Shared)
 TraceSpec == TraceInit /\ [][TraceNext]_tvars
 
 Progress ==
